@@ -48,21 +48,37 @@ def _markers(ctx):
   return out
 
 
-def _ordering_visitor(mod):
-  """(class name, VisitClass) of the visitor whose VisitClass sorts the constants of a class."""
-  found = []
+def _plain_class(bases, fields):
+  return me.replaceable(("pytd.Class",), name="P", keywords=(), bases=tuple(bases), methods=(),
+                        constants=fields, classes=(), decorators=(), slots=None, template=())
+
+
+def _ordering_visitor(mod, g):
+  """(class name, VisitClass) of the visitor whose VisitClass sorts the constants of a plain class.
+
+  Found by what VisitClass does (evaluated on a class with no decorators and an ordinary base), not by how
+  the sort is spelt; a VisitClass outside the evaluated fragment is not a candidate.
+  """
+  fields = ("zeta", "alpha", "mid")
+  found, tried = [], []
   for cname in mod.classes:
-    ms = class_methods(mod, cname)
+    ms = {k: v for k, v in class_methods(mod, cname).items() if not v.decorator_list}
     vc = ms.get("VisitClass")
-    if vc is None:
+    if vc is None or len(vc.args.posonlyargs + vc.args.args) != 2:
       continue
-    for c in calls_in(vc, name="sorted"):
-      if c.args and isinstance(c.args[0], ast.Attribute) and c.args[0].attr == "constants":
-        found.append((cname, vc))
-        break
+    tried.append(cname)
+    this = me.Obj((cname,), {}, cls_methods=ms)
+    node = _plain_class([_ref("ClassType", "builtins.object")], fields)
+    try:
+      r = _Interp(vc, g).call({"self": this, _second(vc): node})
+    except (me.Outside, me.Raised, me.Diverged, RecursionError):
+      continue
+    got = r.attrs.get("constants") if isinstance(r, me.Obj) else None
+    if isinstance(got, (tuple, list)) and list(got) == sorted(fields):
+      found.append((cname, vc))
   if len(found) != 1:
-    raise AnalysisError(f"{VISITORS}: expected exactly one visitor whose VisitClass sorts a class's constants, "
-                        f"found {[c for c, _ in found]}")
+    raise AnalysisError(f"{VISITORS}: expected exactly one visitor whose VisitClass hands back a plain class with "
+                        f"its constants sorted, found {[c for c, _ in found]} among {tried}")
   return found[0]
 
 
@@ -112,9 +128,9 @@ def order_guard_matrix(ctx):
   def compute():
     admitted = _check_schema(ctx)
     mod = get_module(ctx, VISITORS)
-    cname, vc = _ordering_visitor(mod)
-    markers = _markers(ctx)
     g = _module_globals(mod)
+    cname, vc = _ordering_visitor(mod, g)
+    markers = _markers(ctx)
     ms = {k: v for k, v in class_methods(mod, cname).items() if not v.decorator_list}
     this = me.Obj((cname,), {}, cls_methods=ms)
     fillers = _fillers()
@@ -122,8 +138,7 @@ def order_guard_matrix(ctx):
     cases = []
 
     def visit(bases):
-      node = me.replaceable(("pytd.Class",), name="P", keywords=(), bases=tuple(bases), methods=(),
-                            constants=fields, classes=(), decorators=(), slots=None, template=())
+      node = _plain_class(bases, fields)
       try:
         r = _run(f"{cname}.VisitClass", lambda: _Interp(vc, g).call({"self": this, _second(vc): node}))
       except me.Raised as e:
